@@ -56,6 +56,15 @@ type Server struct {
 	Addr   string
 	Keyed  bool // sessions get a key (common cipher) or not (no common cipher)
 	Authed bool // CLAIMTOBE authentication required, or none at all
+	// AnonNever: how an unauthenticated session comes about. false: both sides list
+	// CLAIMTOBE (a common usable method) with Authentication OPTIONAL, so no exchange
+	// runs although a method is negotiated; true: Authentication NEVER, method NONE.
+	AnonNever bool
+	// DurSecs / LeaseSecs: SessionDuration / SessionLease the server announces (0 = cedar's defaults)
+	DurSecs, LeaseSecs int
+	// Stall: a broken exchange is realised by a server that reads the request and then
+	// never answers (the client's context deadline ends it) instead of closing.
+	Stall bool
 	// Placement: where established sessions live and what the server is configured
 	// with. "" / "own": the server has its own SessionCache and the harness moves
 	// each new session into it; "fallback": the server has its own (empty)
@@ -116,12 +125,17 @@ func (s *Server) Config() *security.SecurityConfig {
 	if s.Placement == "global" {
 		cfg.SessionCache = nil
 	}
-	if s.Authed {
+	cfg.SessionDuration, cfg.SessionLease = s.DurSecs, s.LeaseSecs
+	switch {
+	case s.Authed:
 		cfg.AuthMethods = []security.AuthMethod{security.AuthClaimToBe}
 		cfg.Authentication = security.SecurityRequired
-	} else {
+	case s.AnonNever:
 		cfg.AuthMethods = []security.AuthMethod{security.AuthNone}
 		cfg.Authentication = security.SecurityNever
+	default:
+		cfg.AuthMethods = []security.AuthMethod{security.AuthClaimToBe}
+		cfg.Authentication = security.SecurityOptional
 	}
 	if s.Keyed {
 		cfg.CryptoMethods = []security.CryptoMethod{security.CryptoAES}
@@ -139,6 +153,11 @@ func (s *Server) Config() *security.SecurityConfig {
 // ClientConfig returns a fresh client-side SecurityConfig matching a server
 // that demands (or not) authentication.
 func ClientConfig(cache *security.SessionCache, tag string, cmd int, authed bool) *security.SecurityConfig {
+	return ClientConfigAnon(cache, tag, cmd, authed, true)
+}
+
+// ClientConfigAnon: see Server.AnonNever for the two ways of not authenticating.
+func ClientConfigAnon(cache *security.SessionCache, tag string, cmd int, authed, anonNever bool) *security.SecurityConfig {
 	cfg := &security.SecurityConfig{
 		SessionCache:  cache,
 		SecurityTag:   tag,
@@ -147,12 +166,16 @@ func ClientConfig(cache *security.SessionCache, tag string, cmd int, authed bool
 		Encryption:    security.SecurityOptional,
 		Integrity:     security.SecurityOptional,
 	}
-	if authed {
+	switch {
+	case authed:
 		cfg.AuthMethods = []security.AuthMethod{security.AuthClaimToBe}
 		cfg.Authentication = security.SecurityRequired
-	} else {
+	case anonNever:
 		cfg.AuthMethods = []security.AuthMethod{security.AuthNone}
 		cfg.Authentication = security.SecurityNever
+	default:
+		cfg.AuthMethods = []security.AuthMethod{security.AuthClaimToBe}
+		cfg.Authentication = security.SecurityOptional
 	}
 	return cfg
 }
@@ -196,6 +219,10 @@ func (s *Server) Serve(conn Conn, app func(st *stream.Stream, neg *security.Secu
 	if brk {
 		log.Broken = true
 		_, _ = st.ReceiveCompleteMessage(ctx)
+		if s.Stall {
+			// never answer: wait until the client gives up and closes
+			_, _ = st.ReceiveCompleteMessage(ctx)
+		}
 		return log
 	}
 	auth := security.NewAuthenticator(s.Config(), st)
@@ -263,8 +290,19 @@ type ClientResult struct {
 // RealClient returns a client function that runs the real ClientHandshake and,
 // if exchange is set, sends MsgC2S and reads one message.
 func RealClient(cfg *security.SecurityConfig, serverAddr string, exchange bool, out *ClientResult) func(conn *wire.C06Conn) {
+	return RealClientDeadline(cfg, serverAddr, exchange, 0, out)
+}
+
+// RealClientDeadline: with deadline > 0 the handshake runs under a context that
+// expires after it (the caller-side timeout of a stalled exchange).
+func RealClientDeadline(cfg *security.SecurityConfig, serverAddr string, exchange bool, deadline time.Duration, out *ClientResult) func(conn *wire.C06Conn) {
 	return func(conn *wire.C06Conn) {
 		ctx := context.Background()
+		if deadline > 0 {
+			var cancel context.CancelFunc
+			ctx, cancel = context.WithTimeout(ctx, deadline)
+			defer cancel()
+		}
 		st := stream.NewStream(conn)
 		st.SetPeerAddr(serverAddr)
 		auth := security.NewAuthenticator(cfg, st)
